@@ -70,7 +70,7 @@ func (g *jgen) scalar() string {
 		return fmt.Sprintf("d:%d", bits)
 	case 8, 9, 10:
 		n := r.Pick(0, 1, 5, 20, 127, 128, 300)
-		if r.Chance(1, 40) {
+		if r.Chance(1, 40) && g.size < 140000 {
 			n = r.Pick(16383, 16384, 70000)
 		}
 		g.size += n
@@ -100,7 +100,8 @@ func (g *jgen) scalar() string {
 
 func (g *jgen) doc(depth int) string {
 	r := g.r
-	if depth == 0 || r.Chance(2, 5) {
+	// size budget: the Lean model works on byte lists, documents far beyond the 64 KiB format switch cost minutes
+	if depth == 0 || g.size > 140000 || r.Chance(2, 5) {
 		return g.scalar()
 	}
 	n := r.Intn(6)
